@@ -3,6 +3,9 @@
 //   domain byte 0: single synthesised subject   [0, type_lo, type_hi, version, block tape...]
 //   domain byte 1: sample corpus file            [1, index]
 //   domain byte 2: multi-block synthesised file  [2, version, k, (type_lo,type_hi) x k, block tapes...]
+//   domain byte >= 0xF0: single subject with one forced integer-like read
+//                                                [0xF0.., type_lo, type_hi, version, k, v, block tape...]
+//   (bytes below 0xF0 select 0/1/2 by remainder mod 3)
 #pragma once
 #include "harness.hpp"
 #include "synth.hpp"
@@ -20,12 +23,17 @@ struct FileCase {
 	bool populated = false; // non-trivial by the payload rule
 	uint64_t hash = 0;
 	size_t payloadSize = 0;
+	std::string forced; // "integer read #k = v" for sweep cases
 };
+
+const unsigned kSweepMaxReads = 32;
+const unsigned kSweepMaxValue = 32;
 
 inline FileCase decodeFileCase(Tape& t, Run& run, bool allowCorpus = true) {
 	FileCase c;
 	auto& types = registeredTypes();
-	uint8_t dom = t.u8() % 3;
+	uint8_t domByte = t.u8();
+	uint8_t dom = domByte >= 0xF0 ? 3 : domByte % 3;
 	if (dom == 1 && !allowCorpus)
 		dom = 0;
 	if (dom == 1) {
@@ -46,14 +54,20 @@ inline FileCase decodeFileCase(Tape& t, Run& run, bool allowCorpus = true) {
 		c.payloadSize = c.bytes.size();
 		return c;
 	}
-	if (dom == 0) {
+	if (dom == 0 || dom == 3) {
 		size_t ti = t.u16() % types.size();
 		size_t vi = t.u8() % versions().size();
-		c.kind = "synth1";
+		c.kind = dom == 3 ? "synth1-forced" : "synth1";
 		c.label = types[ti];
 		c.vi = vi;
 		c.version = versions()[vi].name;
+		if (dom == 3) {
+			force().read = t.u8() % kSweepMaxReads;
+			force().value = t.u8() % kSweepMaxValue;
+			c.forced = "integer read #" + std::to_string(force().read) + " = " + std::to_string(force().value);
+		}
 		SynthFile sf = synthSingleFile(types[ti], vi, t);
+		force() = Force();
 		if (!sf.ok) {
 			c.why = sf.aborted ? "synthesis aborted (payload limit)" : "synthesis failed";
 			return c;
@@ -112,8 +126,78 @@ inline void enumerateFileCases(Run& run, const std::function<void(const std::vec
 			}
 }
 
+// One-factor sweep with read-site novelty: for every (type, version) and each of two base tapes,
+// each of the first maxK integer-like reads is forced to every value 0..maxV-1 in turn; a sweep
+// tape is emitted only when the reader visits a read site (chain of return addresses above the
+// hook = a place in some Sync()) that no earlier tape of that (type, version) has visited. Switch
+// arms and count-dependent sections that a blind distribution hits rarely are reached one at a time.
+// Cells are distributed over the shards here.
+inline void sweepCells(int shard, int nshards, unsigned maxK, unsigned maxV, size_t nPatterns,
+					   const std::function<void(const std::vector<uint8_t>&)>& emit, uint64_t& tried, uint64_t& novel) {
+	static const uint8_t patterns[] = {0x00, 0xA1, 0xC9, 0x95, 0xE1, 0xFF, 0x61, 0xF9};
+	static const uint8_t bases[] = {0x00, 0x61};
+	auto& types = registeredTypes();
+	const size_t nv = versions().size();
+	for (size_t ti = 0; ti < types.size(); ti++)
+		for (size_t vi = 0; vi < nv; vi++) {
+			if (static_cast<int>((ti * nv + vi) % static_cast<size_t>(nshards)) != shard % nshards)
+				continue;
+			std::unordered_set<uint64_t> seen;
+			// returns the number of read sites not seen before (and records them); -1 if synthesis failed
+			auto probe = [&](const std::vector<uint8_t>& body, int k, uint64_t v, size_t& intReads) -> int {
+				Tape t(body);
+				SynthPlan plan;
+				plan.numStrings = versions()[vi].file >= 0x14010001 ? static_cast<uint32_t>(synthStrings().size()) : 0;
+				plan.refTargets = {2, 3, 4, 5, 6};
+				plan.forceRead = k;
+				plan.forceValue = v;
+				plan.wantSites = true;
+				SynthResult r = synthBlock(types[ti], versions()[vi], t, plan);
+				intReads = r.intReads;
+				if (!r.ok)
+					return -1;
+				int fresh = 0;
+				for (auto s : r.sites)
+					fresh += seen.insert(s).second;
+				return fresh;
+			};
+			size_t dummy;
+			for (size_t p = 0; p < nPatterns && p < sizeof patterns; p++)
+				probe(std::vector<uint8_t>(patterns[p] ? 600 : 0, patterns[p]), -1, 0, dummy);
+			for (uint8_t base : bases) {
+				std::vector<uint8_t> body(base ? 600 : 0, base);
+				size_t nInt = 0;
+				probe(body, -1, 0, nInt);
+				for (unsigned k = 0; k < nInt && k < maxK && k < kSweepMaxReads; k++)
+					for (unsigned v = 0; v < maxV && v < kSweepMaxValue; v++) {
+						size_t n2;
+						tried++;
+						if (probe(body, static_cast<int>(k), v, n2) <= 0)
+							continue;
+						novel++;
+						if (getenv("VF_SWEEP_DEBUG"))
+							fprintf(stderr, "sweep %s@%s base=%02x read#%u=%u\n", types[ti].c_str(), versions()[vi].name, base, k, v);
+						std::vector<uint8_t> tape = {0xF0, static_cast<uint8_t>(ti & 255), static_cast<uint8_t>(ti >> 8), static_cast<uint8_t>(vi),
+													 static_cast<uint8_t>(k), static_cast<uint8_t>(v)};
+						tape.insert(tape.end(), body.begin(), body.end());
+						emit(tape);
+					}
+			}
+		}
+}
+
+inline void enumerateSweep(Run& run, const std::function<void(const std::vector<uint8_t>&)>& feed, unsigned maxK, unsigned maxV,
+						   size_t nPatterns = 3) {
+	uint64_t tried = 0, novel = 0;
+	run.feedAll = true;
+	sweepCells(run.args.shard, run.args.nshards, maxK, maxV, nPatterns, feed, tried, novel);
+	run.feedAll = false;
+	run.cls("sweep:forced-reads-tried", tried);
+	run.cls("sweep:tapes-reaching-new-read-sites", novel);
+}
+
 inline std::string caseJson(const FileCase& c) {
-	return J().s("kind", c.kind).s("subject", c.label).s("version", c.version).u("file_bytes", c.bytes.size()).u("payload_bytes", c.payloadSize).b("populated", c.populated).str();
+	return J().s("kind", c.kind).s("subject", c.label).s("version", c.version).u("file_bytes", c.bytes.size()).u("payload_bytes", c.payloadSize).b("populated", c.populated).s("forced", c.forced).str();
 }
 
 } // namespace vf
